@@ -498,6 +498,10 @@ class Response:
         if self._cookies is None:
             self._cookies = http_cookies.SimpleCookie()
 
+        # NOTE: SimpleCookie reuses an existing morsel (and all of its
+        #   attributes) when the same name is assigned again, so drop it first.
+        self._cookies.pop(name, None)
+
         try:
             self._cookies[name] = value
         except http_cookies.CookieError as e:  # pragma: no cover
@@ -626,6 +630,12 @@ class Response:
             self._cookies = http_cookies.SimpleCookie()
 
         self._cookies[name] = ''
+
+        # NOTE: SimpleCookie reuses the morsel of an earlier set_cookie() call
+        #   for the same name. A Max-Age left over from that call would take
+        #   precedence over Expires (RFC 6265, Section 5.3) and keep the
+        #   cookie alive, so clear it.
+        self._cookies[name]['max-age'] = ''
 
         # NOTE(Freezerburn): SimpleCookie apparently special cases the
         # expires attribute to automatically use strftime and set the
